@@ -60,3 +60,13 @@ func init() {
 		}
 	}
 }
+
+func init() {
+	explorations["wait"] = func(p *Prog) {
+		ws := p.waitSites(func(pk string) bool { return pk == modPath || pk == modPath+"/http3" })
+		for _, w := range ws {
+			fmt.Printf("%-9s %-34s %-58s %s\n", w.Kind, p.InstrPos(w.Instr), funcName(w.Fn), strings.Join(w.Classes, "  "))
+		}
+		fmt.Println("sites:", len(ws))
+	}
+}
